@@ -40,9 +40,9 @@ type realState struct {
 
 var cur realState
 
-const stepBudget = 60000
-
-type budgetPanic struct{}
+// the real run may take this many evaluation steps (set per program from the
+// reference run: 40 x its steps + 2000)
+var stepBudget = 60000
 
 func lockBits() (bits uint32) {
 	for i, m := range cur.mutexes {
@@ -200,17 +200,14 @@ func runReal(src string, nMutex int) (res realResult) {
 		cur.steps++
 		if stepBudget < cur.steps {
 			cur.budget = true
-			panic(budgetPanic{})
+			// a *slip.Panic passes through slip's own unwinding untouched
+			panic(&slip.Panic{Message: "c07 step budget exhausted"})
 		}
 	}
 	var val slip.Object
 	func() {
 		defer func() {
 			if r := recover(); r != nil {
-				if _, ok := r.(budgetPanic); ok {
-					res.Budget = true
-					return
-				}
 				res.Err = sl.Classify(r)
 			}
 		}()
@@ -223,11 +220,8 @@ func runReal(src string, nMutex int) (res realResult) {
 	res.Held = lockBits()
 	for _, m := range cur.mutexes { // leave nothing locked behind
 		sm := (*sync.Mutex)(m)
-		if !sm.TryLock() {
-			sm.Unlock()
-		} else {
-			sm.Unlock()
-		}
+		sm.TryLock()
+		sm.Unlock()
 	}
 	for _, fs := range cur.all {
 		if streamOpen(fs) {
@@ -298,6 +292,10 @@ func judge(src string) (v verdict, an *analysis) {
 		return
 	}
 	an = analyze(forms)
+	if an.outside != "" {
+		v.abort = an.outside
+		return
+	}
 	v.ref = runRef(forms, an.nMutex)
 	if v.ref.Abort != "" {
 		v.abort = v.ref.Abort
@@ -314,6 +312,7 @@ func judge(src string) (v verdict, an *analysis) {
 			}
 		}
 	}
+	stepBudget = 2000 + 40*v.ref.Steps
 	v.real = runReal(src, an.nMutex)
 	ref, real := v.ref, v.real
 	set := func(fail, format string, a ...any) {
@@ -428,9 +427,33 @@ func classifyOrder(want, got []event, at int) string {
 
 var probeCache = map[string]bool{}
 
-func probeFor(feat string) (string, bool) {
+// cellProgram is the program that exercises one cell for one exit kind.
+// variant 0 has the cell directly inside the target; variant 1 puts a let
+// between the two, because a form may forward an exit only when it sits
+// directly inside a block (do and prog do, on the pinned tree).
+func cellProgram(cell string, k exitKind, variant int) (string, bool) {
+	if variant == 1 {
+		if k.target == nil {
+			return "", false
+		}
+		if cellByName[cell].needsBlk {
+			// the value form exits to a block inside the one returned from
+			return chainProgram([]string{cell, "block.body"}, k, 1)
+		}
+		return chainProgram([]string{cell, "let.body"}, k, 2)
+	}
+	if src, ok := chainProgram([]string{cell}, k, 1); ok {
+		return src, true
+	}
+	return chainProgram([]string{cell, "block.body"}, k, 2)
+}
+
+func probeFor(feat string, variant int) (string, bool) {
 	var k, rel, cell string
 	if feat == "normal through=tagbody.symtag" {
+		if 0 < variant {
+			return "", false
+		}
 		return "(list (vtr 1) (tagbody (vtr 2) ta (vtr 3)) (vtr 4))", true
 	}
 	if n, _ := fmt.Sscanf(feat, "exit=%s %s", &k, &rel); n != 2 {
@@ -442,12 +465,15 @@ func probeFor(feat string) (string, bool) {
 	for _, ek := range enumKinds() {
 		kinds[ek.name] = ek
 	}
-	base := map[string]string{"return-from": "return-from", "return": "return", "go": "go-fwd", "error": "error0"}[k]
+	base := map[string]string{"return-from": "return-from", "return": "return", "go": "go-fwd", "error": "error2"}[k]
 	if rel == "through" {
 		if _, ok := cellByName[cell]; !ok {
 			return "", false
 		}
-		return chainProgram([]string{cell}, kinds[base], 1)
+		return cellProgram(cell, kinds[base], variant)
+	}
+	if 0 < variant {
+		return "", false
 	}
 	// rel == "to"
 	switch cell {
@@ -495,10 +521,25 @@ func featureBroken(feat string) bool {
 	if b, ok := probeCache[feat]; ok {
 		return b
 	}
-	broken := false
-	if src, ok := probeFor(feat); ok {
-		v, _ := judge(src)
-		broken = v.abort == "" && v.fail != ""
+	try := func(variant int) bool {
+		if src, ok := probeFor(feat, variant); ok {
+			v, _ := judge(src)
+			return v.abort == "" && v.fail != ""
+		}
+		return false
+	}
+	broken := try(0)
+	probeCache[feat] = broken
+	if !broken {
+		// variant 1 separates the cell from its target with a let; only
+		// meaningful while let itself forwards this kind of exit
+		var k string
+		if n, _ := fmt.Sscanf(feat, "exit=%s", &k); n == 1 {
+			sep := fmt.Sprintf("exit=%s through=let.body", k)
+			if feat == sep || !featureBroken(sep) {
+				broken = try(1)
+			}
+		}
 	}
 	probeCache[feat] = broken
 	return broken
@@ -507,11 +548,11 @@ func featureBroken(feat string) bool {
 // ---------------------------------------------------------------------------
 
 var (
-	listOnce sync.Once
-	kindsAll []exitKind
-	kindsPair []exitKind
+	listOnce                           sync.Once
+	kindsAll                           []exitKind
+	kindsPair                          []exitKind
 	nCells, nPairs, nTriples, nSpecial int
-	tripleKinds []exitKind
+	tripleKinds                        []exitKind
 )
 
 var specials = []Case{
@@ -523,6 +564,11 @@ var specials = []Case{
 	{Stream: "special", Label: "backward go without guard", Src: "(tagbody (vtr 1) (go 8) (vtr 2) 4 (vtr 3) (go 9) 8 (vtr 4) (go 4) 9 (vtr 5))"},
 	{Stream: "special", Label: "go to an outer tag from a nested tagbody with the same inner tag names", Src: "(tagbody (vtr 1) (tagbody (vtr 2) (go 9) (vtr 3) 8 (vtr 4)) (vtr 5) 9 (vtr 6))"},
 	{Stream: "special", Label: "symbol tags", Src: "(tagbody (vtr 1) (go tb) (vtr 2) tb (vtr 3))"},
+	{Stream: "special", Label: "closure-exit-shadowed-block", Src: "(block a (vtr 1) (funcall (lambda (f) (block a (vtr 2) (funcall f 0) (vtr 3)) (vtr 4)) (lambda (q) (vtr 5) (return-from a 41))) (vtr 6))"},
+	{Stream: "special", Label: "closure-exit-shadowed-nil-block", Src: "(block nil (vtr 1) (funcall (lambda (f) (dolist (v '(1 2)) (vtr 2) (funcall f 0) (vtr 3)) (vtr 4)) (lambda (q) (vtr 5) (return 41))) (vtr 6))"},
+	{Stream: "special", Label: "closure-exit-shadowed-tag", Src: "(tagbody (vtr 1) (funcall (lambda (f) (tagbody (vtr 2) (funcall f 0) (vtr 3) 8 (vtr 4)) (vtr 5)) (lambda (q) (vtr 6) (go 8))) (vtr 7) 8 (vtr 9))"},
+	{Stream: "special", Label: "let-bound-closure-exit-shadowed-block", Src: "(block a (vtr 1) (let ((f (lambda (q) (vtr 5) (return-from a 41)))) (block a (vtr 2) (funcall f 0) (vtr 3)) (vtr 4)) (vtr 6))"},
+	{Stream: "special", Label: "let-bound-closure-exit-other-block-between", Src: "(block a (vtr 1) (let ((f (lambda (q) (vtr 5) (return-from a 41)))) (block b (vtr 2) (funcall f 0) (vtr 3)) (vtr 4)) (vtr 6))"},
 	{Stream: "special", Label: "nested cleanups innermost first on error", Src: "(unwind-protect (unwind-protect (unwind-protect (error \"c07\") (vtr 101)) (vtr 102)) (vtr 103))"},
 	{Stream: "special", Label: "nested cleanups innermost first on return-from", Src: "(block a (unwind-protect (let ((u 1)) (unwind-protect (let ((w 2)) (vtr 1) (return-from a 7)) (vtr 101))) (vtr 102)) (vtr 2))"},
 	{Stream: "special", Label: "mutex released on error and re-taken", Src: "(list (ignore-errors (with-mutex-lock m1 (vtr 1) (error \"c07\"))) (with-mutex-lock m1 (vtr 2)))"},
@@ -544,7 +590,7 @@ func setup() {
 			}
 		}
 		nc := len(cellDefs)
-		nCells = nc * len(kindsAll)
+		nCells = nc * len(kindsAll) * 2
 		nPairs = nc * nc * len(kindsPair) * 2
 		nTriples = nc * nc * nc * len(tripleKinds)
 		nSpecial = len(specials)
@@ -559,17 +605,30 @@ func nCases(tier string) int {
 	return nSpecial + nCells + nPairs + 30000
 }
 
+func oneLine(s string) string { return strings.ReplaceAll(s, "\n", " ") }
+
 func dirty(src string) bool {
+	d, o := classify(src)
+	return d || o
+}
+
+// classify: dirty = contains a construct of the avoid set; outside = not
+// judged at all.
+func classify(src string) (isDirty, outside bool) {
 	forms, err := parseAll(src)
 	if err != nil {
-		return true
+		return true, true
 	}
-	for _, f := range analyze(forms).feats {
+	an := analyze(forms)
+	if an.outside != "" {
+		return true, true
+	}
+	for _, f := range an.feats {
 		if avoid[f] {
-			return true
+			return true, false
 		}
 	}
-	return false
+	return false, false
 }
 
 func cleanRandom(r *rand.Rand) string {
@@ -595,13 +654,17 @@ func gen(r *rand.Rand, i int, tier string) Case {
 	i -= nSpecial
 	nc := len(cellDefs)
 	if i < nCells {
-		k := kindsAll[i/nc]
 		c := cellDefs[i%nc].name
-		src, ok := chainProgram([]string{c}, k, 1)
+		variant := (i / nc) % 2
+		k := kindsAll[i/(2*nc)]
+		src, ok := cellProgram(c, k, variant)
 		if !ok {
-			src, _ = chainProgram([]string{c, "block.body"}, k, 2)
+			src, _ = cellProgram(c, k, 0)
 		}
-		return Case{Src: src, Stream: "cell", Label: k.name + " " + c}
+		if _, outside := classify(src); outside {
+			return Case{Src: cleanRandom(r), Stream: "random"}
+		}
+		return Case{Src: src, Stream: "cell", Label: fmt.Sprintf("%s %s v%d", k.name, c, variant)}
 	}
 	i -= nCells
 	if i < nPairs {
@@ -610,7 +673,11 @@ func gen(r *rand.Rand, i int, tier string) Case {
 		k := kindsPair[j/(nc*nc)]
 		c1, c2 := cellDefs[(j/nc)%nc].name, cellDefs[j%nc].name
 		src, ok := chainProgram([]string{c1, c2}, k, 2-shape)
-		if !ok || (k.target == nil && shape == 1) || (dirty(src) && j%16 != 0) {
+		isDirty, outside := false, false
+		if ok {
+			isDirty, outside = classify(src)
+		}
+		if !ok || outside || (k.target == nil && shape == 1) || (isDirty && j%16 != 0) {
 			return Case{Src: cleanRandom(r), Stream: "random"}
 		}
 		return Case{Src: src, Stream: "pair", Label: fmt.Sprintf("%s %s %s at=%d", k.name, c1, c2, 2-shape)}
@@ -702,16 +769,21 @@ func exec(x *fw.Ctx, c Case) {
 	// blame the first construct of the program that fails in isolation
 	for _, f := range an.feats {
 		if featureBroken(f) {
-			x.Fail(f, "%s\n  %s", c.Src, v.detail)
+			x.Fail(f, "%s  =>  %s", oneLine(c.Src), v.detail)
 			return
 		}
+	}
+	if c.Stream == "special" {
+		x.Fail("special="+strings.ReplaceAll(c.Label, " ", "-"), "%s  =>  %s\n  (no construct of the program fails on its own; constructs: %s)",
+			oneLine(c.Src), v.detail, strings.Join(an.feats, "; "))
+		return
 	}
 	inner := "none"
 	if 0 < len(an.feats) {
 		inner = an.feats[0]
 	}
-	x.Fail(fmt.Sprintf("fail=%s first=%s", v.fail, strings.ReplaceAll(inner, " ", ",")), "%s\n  %s\n  (no construct of the program fails on its own; constructs: %s)",
-		c.Src, v.detail, strings.Join(an.feats, "; "))
+	x.Fail(fmt.Sprintf("fail=%s first=%s", v.fail, strings.ReplaceAll(inner, " ", ",")), "%s  =>  %s\n  (no construct of the program fails on its own; constructs: %s)",
+		oneLine(c.Src), v.detail, strings.Join(an.feats, "; "))
 }
 
 func init() {
@@ -722,12 +794,16 @@ func init() {
 	sort.Strings(keys)
 	fw.Register(fw.Spec[Case]{
 		ID: "C07",
-		Rule: "programs = an exit site (normal completion, return-from, return, go forward/backward, error of 4 classes) wrapped in a chain of (form kind, position) cells; " +
-			"block 1: fixed lexical-scoping and cleanup-order programs; block 2: every cell x every exit kind with one intervening form (the coverage table; includes the constructs listed as findings); " +
-			"block 3: every ordered pair of cells x 9 exit kinds, exit through both or through the first and normal completion through the second (pairs containing a listed construct are kept 1 in 16); " +
-			"thorough adds every triple for 4 exit kinds; then seeded random chains up to 9 layers (at most 5 nesting forms) with guards (exit on the Nth evaluation), a second exit after the first has landed, and side trees in sibling positions; " +
-			"1 in 8 random programs ignores the avoid set. distinct = distinct program text; non-trivial = the oracle judges it and its trace has at least 2 markers. " +
-			"avoid set (" + fmt.Sprint(len(keys)) + " constructs listed as findings): " + strings.Join(keys, "; "),
+		Rule: "programs = an exit site (normal completion, return-from, return, go forward/backward, error of 4 classes) wrapped in a chain of (form kind, position) cells " +
+			"(let let* progn when unless if cond case and or dolist dotimes do do* multiple-value-bind setq, call argument, funcall/mapcar lambda body, defun body, closure passed to another function, " +
+			"block tagbody unwind-protect with-mutex-lock ignore-errors recover with-open-file; every evaluated position of each); every other evaluated position holds a trace marker, cleanup forms hold cleanup markers. " +
+			"block 1: fixed lexical-scoping, shadowing and cleanup-order programs; block 2: every cell x every exit kind with one intervening form, directly inside the target and separated from it by a let " +
+			"(the coverage table; includes the constructs listed as findings); block 3: every ordered pair of cells x 9 exit kinds, exit through both, or through the first with normal completion through the second " +
+			"(pairs containing a listed construct are kept 1 in 16, the others replaced by clean random programs); thorough adds every triple of cells for 4 exit kinds; " +
+			"then seeded random chains of up to 9 layers (at most 5 nesting forms) with guards (exit taken on the Nth evaluation inside loops), a second exit after the first has landed, " +
+			"side trees with their own self-contained exits in sibling and cleanup positions, input and output streams; 1 in 8 random programs ignores the avoid set. " +
+			"distinct = distinct program text; non-trivial = the oracle judges the program and its trace has at least 2 markers. " +
+			"avoid set: the " + fmt.Sprint(len(keys)) + " (exit kind, cell) constructs listed in findings/C07.json (counter avoided:...); exits out of unwind-protect cleanup forms are outside the property and not judged",
 		N:        nCases,
 		Gen:      gen,
 		Exec:     exec,
